@@ -2,6 +2,7 @@ package props
 
 import (
 	"crypto/rsa"
+	"crypto/sha256"
 	"encoding/base64"
 	"encoding/json"
 	"encoding/xml"
@@ -141,7 +142,9 @@ func c17SP(variant int) h.SPConfig {
 	sp := h.BaseSP()
 	sp.Store = []h.CertRef{{Key: "T1", Window: "wide"}, {Key: "T2", Window: "wide"}}
 	sp.SignRequests = true
-	switch variant % 9 {
+	switch variant % 10 {
+	case 9: // TLS bundle that is not ordered leaf first (issuer, then the certificate of the key)
+		sp.Enc = h.KeyCfg{Mode: "tls", Field: h.CertRef{Key: "E1", Window: "wide"}, Chain: true, LeafLast: true}
 	case 8: // decryption key assembled from bare components (no precomputed CRT values), generic key store
 		sp.Enc = h.KeyCfg{Mode: "custom", Field: h.CertRef{Key: "E1", Window: "wide"}, Bare: true}
 	case 6: // IdP store lists a not-yet-valid certificate (pre-published roll-over) BEFORE the current ones
@@ -578,10 +581,14 @@ func snapshot(sp *saml2.SAMLServiceProvider) string {
 			if !v.Field(i).IsNil() {
 				switch ks := v.Field(i).Interface().(type) {
 				case *h.CustomStore:
+					fmt.Fprintf(&sb, "%s.cert:%x;", f.Name, sha256.Sum256(ks.Cert))
 					if ks.Key != nil {
 						fmt.Fprintf(&sb, "%s.precomputed:%v/%d;", f.Name, ks.Key.Precomputed.Dp != nil, len(ks.Key.Precomputed.CRTValues))
 					}
 				case dsig.TLSCertKeyStore:
+					for ci, der := range ks.Certificate {
+						fmt.Fprintf(&sb, "%s.chain[%d]:%x;", f.Name, ci, sha256.Sum256(der))
+					}
 					if rk, ok := ks.PrivateKey.(*rsa.PrivateKey); ok {
 						fmt.Fprintf(&sb, "%s.precomputed:%v;", f.Name, rk.Precomputed.Dp != nil)
 					}
@@ -612,7 +619,7 @@ func genC17Ops(t *rapid.T, n int) []C17Op {
 // ---- Part A: sequential isolation / purity ----------------------------------------------------
 
 func genC17Seq(t *rapid.T) C17Case {
-	return C17Case{SP: c17SP(rapid.IntRange(0, 8).Draw(t, "spVariant")), Seq: true, Ops: [][]C17Op{genC17Ops(t, rapid.IntRange(1, 12).Draw(t, "nOps"))}}
+	return C17Case{SP: c17SP(rapid.IntRange(0, 9).Draw(t, "spVariant")), Seq: true, Ops: [][]C17Op{genC17Ops(t, rapid.IntRange(1, 12).Draw(t, "nOps"))}}
 }
 
 func checkC17Seq(c C17Case) h.Outcome {
@@ -655,7 +662,7 @@ func checkC17Seq(c C17Case) h.Outcome {
 // ---- Part B: concurrent use of a FRESH SP (first-use race on the lazy signing context), under -race ----
 
 func genC17Conc(t *rapid.T) C17Case {
-	c := C17Case{SP: c17SP(rapid.IntRange(0, 8).Draw(t, "spVariant"))}
+	c := C17Case{SP: c17SP(rapid.IntRange(0, 9).Draw(t, "spVariant"))}
 	g := rapid.IntRange(2, 16).Draw(t, "goroutines")
 	for i := 0; i < g; i++ {
 		c.Ops = append(c.Ops, genC17Ops(t, rapid.IntRange(1, 4).Draw(t, "nOps")))
